@@ -9,6 +9,7 @@ import AmrK.Scan
 import AmrK.TasteAll
 import AmrK.Grid
 import AmrK.PointModel
+import AmrK.MenuR
 /-! `amrk-driver`: one JSON object per line in, one JSON object per line out.
     Executable definitions of the model only (no Mathlib behind any import). -/
 open Lean
@@ -143,6 +144,11 @@ def opPoint (j : Json) : Except String Json := do
   | .case2 => return Json.mkObj [("status", "case2")]
   | .case1 l b loc => return Json.mkObj [("status", "case1"), ("level", toJson l), ("box", toJson b), ("local", toJson (loc.map ratJ))]
 
+/-! ### menu's two-column min/max table -/
+def opMenuTable (j : Json) : Except String Json := do
+  let n ← (← j.getObjVal? "n").getNat?
+  return Json.mkObj [("shown", toJson ((MenuR.shown n).map optJ))]
+
 /-! ### mandoline column -/
 open Column in
 def cfgOfJson (j : Json) : Except String Cfg := do
@@ -271,6 +277,7 @@ partial def loop (h : IO.FS.Stream) (out : IO.FS.Stream) (files : Std.HashMap St
         | "cellh" => opCellH j
         | "cover" => opCover j
         | "point" => opPoint j
+        | "menu_table" => opMenuTable j
         | "taste_plt" => opTastePlt files j
         | "column" => opColumn j
         | "pestle" => opPestle j
